@@ -34,6 +34,11 @@ Route(site, k) ==
          ELSE [family |-> "modified_helmholtz", decay |-> 0, osc |-> 0, ok |-> k[2] = 0]     \* complex parameter rejected
     ELSE [family |-> "helmholtz", decay |-> k[2], osc |-> k[1], ok |-> TRUE]
 
+\* every factory has the optional arguments below; a route that calls the modified Helmholtz factory must hand each of them on
+\* (transcribed: all six sites forward all four positionally)
+OptionalArgs == {"parameters", "assembler", "device_interface", "precision"}
+Forwards(s, kk) == OptionalArgs
+
 VARIABLES site, k
 vars == <<site, k>>
 Init == site \in Sites /\ k \in Wavenumbers
@@ -43,12 +48,14 @@ Spec == Init /\ [][Next]_vars
 RoutePreservesKernel ==
     LET r == Route(site, k) IN r.ok /\ r.decay = k[2] /\ r.osc = k[1]
 
+RouteForwardsArguments == Forwards(site, k) = OptionalArgs
+
 \* homogeneity under x -> s x, k -> k / s (entered data, used by C03) and symmetry classes (C05)
 Homogeneity == [single_layer |-> 3, double_layer |-> 2, adjoint_double_layer |-> 2, hypersingular |-> 1,
                 identity |-> 2, laplace_beltrami |-> 0, electric_field |-> 2, magnetic_field |-> 2]
 SymmetryClass == [single_layer |-> "symmetric", hypersingular |-> "symmetric",
                   double_layer |-> "transpose_of_adjoint", adjoint_double_layer |-> "transpose_of_double"]
 
-Obligation == [site |-> site, re4 |-> k[1], im4 |-> k[2], route |-> Route(site, k)]
+Obligation == [site |-> site, re4 |-> k[1], im4 |-> k[2], route |-> Route(site, k), forwards |-> Forwards(site, k)]
 Emit == EmitJson => PrintT("OBL " \o ToJson(Obligation))
 =============================================================================
